@@ -123,8 +123,11 @@ class Report:
     cov = dict(
         states=max(self.states, 0),
         transitions=max(self.transitions, 0),
-        traces_validated_against_impl=self.traces_validated,
-        behaviours_replayed_into_impl=self.behaviours_replayed,
+        # both conformance directions: TLC-generated behaviours / inputs replayed into the implementation, and
+        # traces recorded from the implementation validated by TLC
+        traces_validated_against_impl=self.traces_validated + self.behaviours_replayed,
+        spec_behaviours_replayed_into_impl=self.behaviours_replayed,
+        impl_traces_validated_by_tlc=self.traces_validated,
         evaluations=self.evaluations,
         distinct_nontrivial=len(self.nontrivial),
         rule=self.rule,
